@@ -253,6 +253,14 @@ inline Sym min(const Sym& a, const Sym& b) {
   if (a.is_const() && b.is_const()) return Sym(a.c < b.c ? a.c : b.c);
   return Sym::node("(ite (<= " + a.term() + " " + b.term() + ") " + a.term() + " " + b.term() + ")");
 }
+inline Sym fmod(const Sym& a, const Sym& b) {  // a - b * trunc(a / b), over the reals
+  if (a.is_const() && b.is_const()) return Sym(std::fmod(a.c, b.c));
+  return a - b * trunc(a / b);
+}
+template <class T, class = typename std::enable_if<std::is_arithmetic<T>::value>::type>
+inline Sym fmod(const Sym& a, T b) { return fmod(a, Sym(b)); }
+template <class T, class = typename std::enable_if<std::is_arithmetic<T>::value>::type>
+inline Sym fmod(T a, const Sym& b) { return fmod(Sym(a), b); }
 inline Sym fmax(const Sym& a, const Sym& b) { return max(a, b); }
 inline Sym fmin(const Sym& a, const Sym& b) { return min(a, b); }
 template <class T, class = typename std::enable_if<std::is_arithmetic<T>::value>::type>
@@ -351,6 +359,7 @@ inline vsym::Sym exp(const vsym::Sym& a) { return vsym::exp(a); }
 inline vsym::Sym pow(const vsym::Sym& a, const vsym::Sym& b) { return vsym::pow(a, b); }
 inline vsym::Sym ceil(const vsym::Sym& a) { return vsym::ceil(a); }
 inline vsym::Sym trunc(const vsym::Sym& a) { return vsym::trunc(a); }
+inline vsym::Sym fmod(const vsym::Sym& a, const vsym::Sym& b) { return vsym::fmod(a, b); }
 inline vsym::Sym round(const vsym::Sym& a) { return vsym::round(a); }
 inline vsym::Sym max(const vsym::Sym& a, const vsym::Sym& b) { return vsym::max(a, b); }
 inline vsym::Sym min(const vsym::Sym& a, const vsym::Sym& b) { return vsym::min(a, b); }
